@@ -1,5 +1,6 @@
 SPECIFICATION Spec
 CONSTANTS NB = 3
           NID = 2
+          Wide = TRUE
           MaxBatch = 2
-INVARIANTS TypeOK IdentityNeverStored IdentityAlwaysPresent AliasSameEntry
+INVARIANTS TypeOK IdentityNeverStored IdentityAlwaysPresent IdentityInlined AliasSameEntry
